@@ -237,6 +237,7 @@ class FuncAnalysis:
         self.S = Summary(func)
         self.call_gens = {}    # call id -> {'z': {key:(Loc,term)}, 'nz': {...}}
         self.call_class_facts = {}   # call id -> {'z': set(facts), 'nz': set(facts)}
+        self.call_saved = {}         # call id -> {'z': must entries surviving a z return, 'nz': ...}
         self.termcache = {}
 
     # ------------------------------------------------------------ helpers
@@ -674,6 +675,22 @@ class FuncAnalysis:
                         self.S.unknown_shapes.append((site, "callee %s writes %s which cannot be named here" % (s.func.name, addr_str(loc.addr, self.prog))))
                         continue
                     pending.append((a2, loc.size, cl, site + " -> " + w))
+        # must entries that only one class's writes would kill survive under the other class:
+        # remember them so that learning the class (test-and-bail / tail return) restores them
+        killed_by = {}
+        for (a2, size, cl, w) in pending:
+            loc = Loc(a2, size)
+            for k, (l2, _t) in st.must.items():
+                if may_overlap(loc, l2):
+                    killed_by.setdefault(cl, set()).add(k)
+        saved = {}
+        if killed_by and all(c in ("z", "nz") for c in killed_by):
+            allk = set().union(*killed_by.values())
+            for cl in ("z", "nz"):
+                keep = {k: st.must[k] for k in allk if k not in killed_by.get(cl, set())}
+                if keep:
+                    saved[cl] = keep
+        self.call_saved[inst["id"]] = saved
         for (a2, size, cl, w) in pending:
             tag = (inst["id"], cl) if cl in ("z", "nz") else None
             self.do_write(st, a2, size, None, inst, tag=tag, site=w)
@@ -747,6 +764,8 @@ class FuncAnalysis:
                 continue
             if after and i["op"] in ("store", "call"):
                 return
+        for k, v in self.call_saved.get(cid, {}).get(cl, {}).items():
+            st.must.setdefault(k, v)
         g = self.call_gens.get(cid, {}).get(cl)
         if g:
             for k, v in g.items():
